@@ -340,15 +340,37 @@ def run(repo: Repo) -> Result:
         res.add("C18-SELECT", st_.qual, "by-name", "_store_blocks must keep one stack per block name (stack = block_stacks[block.name])", st_.file, st_.line)
     else:
         appends = [c for c in ast.walk(lp_) if isinstance(c, ast.Call) and callee_name(c) == "append" and is_name(call_recv(c), stack_var)]
-        link = any(isinstance(x, ast.Assign) and text(x.targets[0]) == f"{stack_var}[-2].parent" and text(x.value) == f"{stack_var}[-1]" for x in ast.walk(lp_))
-        guarded = any(isinstance(x, ast.If) and _canon(x.test) == f"len({stack_var}) > 1" and any(isinstance(y, ast.Assign) and text(y.targets[0]) == f"{stack_var}[-2].parent" for y in ast.walk(x)) for x in ast.walk(lp_))
-        if len(appends) != 1 or not link or not guarded:
-            res.add("C18-SELECT", st_.qual, "link", "_store_blocks must append the definition and link stack[-2].parent = stack[-1]", st_.file, st_.line)
-        item = appends[0].args[0] if appends and appends[0].args else None
-        kw = {k.arg: k.value for k in item.keywords} if isinstance(item, ast.Call) else {}
         from ..astutil import resolve_local, single_assignments
 
         la = single_assignments(lp_)
+        item_expr = appends[0].args[0] if appends and appends[0].args else None
+        item_name = item_expr.id if isinstance(item_expr, ast.Name) else None
+        # the previous top of the stack gets the new definition as its parent — when there is a
+        # previous top.  Either order: append first, then `if len(S) > 1: S[-2].parent = S[-1]`;
+        # or `if S: S[-1].parent = <item>` first, then `S.append(<item>)`.
+        def pos_of(node_):
+            for i_, st0 in enumerate(lp_.body):
+                if any(x is node_ for x in ast.walk(st0)):
+                    return i_
+            return -1
+
+        S = stack_var
+        after_ok = any(
+            isinstance(x, ast.If) and _canon(x.test) in (_canon(ast.parse(f"len({S}) > 1", mode="eval").body), _canon(ast.parse(f"len({S}) >= 2", mode="eval").body))
+            and any(isinstance(y, ast.Assign) and text(y.targets[0]) == f"{S}[-2].parent" and text(y.value) == f"{S}[-1]" for y in ast.walk(x))
+            and appends and pos_of(appends[0]) < pos_of(x)
+            for x in ast.walk(lp_)
+        )
+        before_ok = item_name is not None and any(
+            isinstance(x, ast.If) and _canon(x.test) in (_canon(ast.parse(S, mode="eval").body), _canon(ast.parse(f"len({S}) > 0", mode="eval").body), _canon(ast.parse(f"len({S}) >= 1", mode="eval").body))
+            and any(isinstance(y, ast.Assign) and text(y.targets[0]) == f"{S}[-1].parent" and is_name(y.value, item_name) for y in ast.walk(x))
+            and appends and pos_of(x) < pos_of(appends[0])
+            for x in ast.walk(lp_)
+        )
+        if len(appends) != 1 or not (after_ok or before_ok):
+            res.add("C18-SELECT", st_.qual, "link", "_store_blocks must append the definition and make it the parent of the previous top of the stack (stack[-2].parent = stack[-1])", st_.file, st_.line)
+        item = resolve_local(item_expr, la) if item_expr is not None else None
+        kw = {k.arg: k.value for k in item.keywords} if isinstance(item, ast.Call) else {}
         rq = resolve_local(kw.get("required"), la) if kw.get("required") is not None else None
         rq_ok = rq is not None and (
             text(rq) == f"{blk_var}.required"
